@@ -17,3 +17,7 @@ bool nondet_bool();
 #define CHECK(c, msg) __CPROVER_assert((c), msg)
 #define ASSUME(c) __CPROVER_assume(c)
 #define NOINL __attribute__((noinline))
+// Typed raw storage: an object of type T that is constructed by placement-new inside the harness and never destroyed
+// (no static constructor to run, no destructor at the end of the harness, and the IR keeps T's field structure).
+template<class T> union Raw { T v; Raw() {} ~Raw() {} };
+#include <new>
